@@ -118,7 +118,7 @@ def work(ctx, tier):
         ctx.inc("sweep_scenarios")
     n = (9000 if tier == "quick" else 250000) // ctx.nshards
     for k in range(n):
-        sc = gen.rand_scenario(rng, p_special=0.04, specials=("abort", "nested_open"), p_budget=0.3, p_handler=0.4, p_abort=0.3, p_breaker=0.4, ncalls=(1, 4), placements=(k % 5 == 0), p_strategy_objects=0.3, slow_hooks=(k % 3 == 1), rf_time=True, p_via_attrs=0.25)
+        sc = gen.rand_scenario(rng, p_special=0.04, specials=("abort", "nested_open"), p_budget=0.3, p_handler=0.4, p_abort=0.3, p_breaker=0.4, ncalls=(1, 4), placements=(k % 5 == 0), p_strategy_objects=0.3, slow_hooks=(k % 3 == 1), rf_time=True, p_via_attrs=0.25, p_bogus_handler=0.15)
         if k % 6 == 0:
             # a raising metric hook must not make the three sinks disagree
             sc["fault"] = {"kind": "hook", "hook": "metric", "at": rng.choice([0, 1, 2, "always"]), "exc": rng.choice(["RuntimeError", "ValueError", "KeyError"])}
